@@ -3,7 +3,7 @@
    extracted datatypes.  Run from /verif/extract:
      coqc -Q ../coq K Extract.v *)
 From Coq Require Import Extraction ExtrOcamlBasic ExtrOcamlString.
-From K Require Import Str SetM Linq Sieve Dec Trace Fs World Progs Elf Handler Bitmap Main.
+From K Require Import Str SetM Linq Sieve Dec Trace Fs World Progs Elf Handler Bitmap Main ConfigInst.
 Extraction Blacklist String List Char Bool.
 Set Extraction Optimize.
 Extraction "model.ml"
@@ -13,9 +13,10 @@ Extraction "model.ml"
   encode decode strip linit lstep lrun drain drain_all
   sieve decide project_root_end push_decision linq_meta
   dec undec tr_empty tr_ok fs_empty lookup get_file set_file fs_mkdir fs_rmdir fs_unlink fs_create_excl
-  fs_append parents_of run no_faults
+  fs_append fs_symlink parents_of run no_faults
   load_handler free_handler handle_open_exec handle_close_write handle_timeout
   sync_file read_counter write_counter note get_file_extension create_store_path current_path increment
   get_elf_interpreter_raw
   bm_create bm_set bm_unset bm_get attr_run
-  parse_params common_len main.
+  parse_params common_len main
+  klunok_load.
